@@ -39,7 +39,7 @@ impl Property for C13 {
         "a case is a mesh (closed: boxes, prisms, octahedra, icospheres, tori; open: height-field grids, L-shapes, tubes, fans; shuffled numbering, any pose) with a plane of any normal whose offset is a fraction of the mesh extent (inside, grazing, missing) or passes exactly through a vertex (robustness family: only no-panic and on-plane/on-surface are required), and a second isometry for the commutation clause. Generic planes keep every vertex at least 1e-4 of the mesh size from the plane. Oracle: harness face-plane crossing segments (each exactly once), exhaustive distance to the surface, closedness on watertight meshes, one loop with the polygon perimeter on convex solids, side/area bookkeeping for splits. Non-trivial: plane normal not axis-aligned in the mesh frame and at least 4 faces cut. Distinct = distinct canonical JSON."
     }
     fn cases(t: Tier) -> u32 {
-        t.pick(60_000, 1_500_000)
+        t.pick(240_000, 1_500_000)
     }
     fn isolated() -> Option<std::time::Duration> {
         // sectioning / splitting run inside a killable worker: a runaway allocation or loop in the
